@@ -9,7 +9,7 @@ import z3
 from pyvc.contracts import Contract
 from pyvc.core import fresh_name
 from pyvc.models_np import Z, sym_arr
-from pyvc.values import AbsObj, SV, Arr, Obj, Opaque, mk, sym, to_z3, zbool
+from pyvc.values import AbsObj, SV, Arr, Obj, Opaque, PList, mk, sym, to_z3, zbool
 
 
 def in_box(L, E, p, axes):
@@ -371,12 +371,13 @@ class ContainerCopyFromExtent(_ForwardsExtent):
 class GroupCopyFromExtent(_ForwardsExtent):
     target = "geoh5py/groups/base.py::Group.copy_from_extent"
     has_native = True
-    bounded_scope = "a group holding a 5-point cloud and a nested group with a 4-vertex curve; 4 boxes x both inverse values"
+    bounded_scope = "groups {a 5-point cloud + a nested group with a 4-vertex curve; the same with the curve 100 units away; only nested groups (two levels) around the curve}; 6 boxes x both inverse values"
 
     def native_cases(self, tier, rng):
-        for box in ([[0.5, -1], [2.5, 1]], [[-1, -1], [0.5, 1]], [[1.5, -1], [9, 1]], [[-5, -5], [9, 9]]):
-            for inv in (False, True):
-                yield {"box": box, "inverse": inv}
+        for layout in ("objects-and-nested", "nested-only", "nested-far-away"):
+            for box in ([[0.5, -1], [2.5, 1]], [[-1, -1], [0.5, 1]], [[1.5, -1], [9, 1]], [[-5, -5], [9, 9]], [[100.5, -1], [102.5, 1]], [[99, -1], [200, 1]]):
+                for inv in (False, True):
+                    yield {"box": box, "inverse": inv, "layout": layout}
 
     def native_check(self, case):
         from geoh5py.groups import ContainerGroup
@@ -385,14 +386,20 @@ class GroupCopyFromExtent(_ForwardsExtent):
 
         box = np.array(case["box"], dtype=float)
         pts = np.c_[np.arange(5.0), np.zeros(5), np.zeros(5)]
-        cv = np.c_[np.arange(4.0), np.zeros(4), np.zeros(4)]
+        layout = case.get("layout", "objects-and-nested")
+        cv = np.c_[np.arange(4.0) + (100.0 if layout == "nested-far-away" else 0.0), np.zeros(4), np.zeros(4)]
         with Workspace() as ws:
             top = ContainerGroup.create(ws, name="top")
-            Points.create(ws, name="pts", vertices=pts, parent=top)
+            if layout != "nested-only":
+                Points.create(ws, name="pts", vertices=pts, parent=top)
+            else:
+                pts = np.zeros((0, 3))
             sub = ContainerGroup.create(ws, name="sub", parent=top)
+            if layout == "nested-only":
+                sub = ContainerGroup.create(ws, name="subsub", parent=sub)
             Curve.create(ws, name="cv", vertices=cv, parent=sub)
             out = top.copy_from_extent(box, inverse=case["inverse"])
-            exp_pts = pts[np_in_box(pts, box, case["inverse"])]
+            exp_pts = pts[np_in_box(pts, box, case["inverse"])] if len(pts) else pts
             sel = np_in_box(cv, box, case["inverse"])
             keep = np.zeros(4, dtype=bool)
             for a in range(3):
@@ -410,7 +417,12 @@ class GroupCopyFromExtent(_ForwardsExtent):
 
             if out is not None:
                 walk(out)
+            def misses(v):  # the box misses the object's bounding box: "nothing is returned" is then allowed, inverse or not
+                return len(v) > 0 and bool(np.any((v[:, :2].max(axis=0) < box[0, :2]) | (v[:, :2].min(axis=0) > box[1, :2])))
+
             for name, exp in (("pts", exp_pts), ("cv", exp_cv)):
+                if len(found[name]) == 0 and misses({"pts": pts, "cv": cv}[name]):
+                    continue
                 if found[name].shape != exp.shape or not np.allclose(found[name], exp):
                     return f"{name}: copied {found[name][:, 0].tolist()} expected {exp[:, 0].tolist()} for {case}"
         return None
@@ -445,14 +457,41 @@ class GroupCopyFromExtent(_ForwardsExtent):
 
         orig_child = children.child
         children.child = lambda tag, **kw: child_factory(tag)
+        if ctx.case == "two-children":
+            # exactly two children (an object and a nested group, say): the loop is unrolled, so that "every child is
+            # asked" can be stated on every path -- whatever the group's own bounding box says
+            me.attrs["children"] = PList([child_factory("child-0"), child_factory("child-1")])
+            me.attrs["extent"] = Opaque("self.extent")
+            ctx.path.assume(~new_group.none_var())  # the empty copy of the group itself succeeded
         ctx.env.update(extent=extent, inverse=inverse, new_group=new_group)
         return [me, extent], {"inverse": inverse, "copy_children": True}
+
+    def cases(self):
+        return ["any-children", "two-children"]
 
     def post(self, ctx, result):
         e = ctx.env
         evs = self.events_of(ctx, "child.copy_from_extent")
         ok = all(ev["extent"] is e["extent"] and ev["inverse"] is e["inverse"] and ev["parent"] is e["new_group"] and ev["copy_children"] is True for ev in evs)
         ctx.oblige("every-child-selected-with-the-same-extent-and-inverse-flag-into-the-copy", ok)
+        if ctx.case == "two-children":
+            ctx.oblige("no-child-is-skipped-whatever-the-result", len(evs) == 2,
+                       note="the group answered (possibly with nothing) without asking each of its children: only the children know whether an element qualifies (nested groups have no selection of their own)")
+
+
+class BoxIntersectOpaque(Contract):
+    """call summary of utils.box_intersect for abstract execution: an unknown truth value"""
+    target = "geoh5py/shared/utils.py::box_intersect"
+    variant = "opaque-summary"
+    symbolic = False
+    props = ()
+
+    def apply(self, I, args, kwargs):
+        I.event("box_intersect")
+        return Opaque("box_intersect(...)")
+
+
+GroupCopyFromExtent.uses = (BoxIntersectOpaque,)
 
 
 class DataMaskByExtent(Contract):
@@ -636,7 +675,7 @@ class Grid2DCopyFromExtent(Contract):
         return None
 
 
-CONTRACTS = [MaskByExtent, BoxIntersect, PointsMaskByExtent, CellMaskByExtent, DataMaskByExtent, GridMaskByExtent, Grid2DCopyFromExtent, ContainerCopyFromExtent, GroupCopyFromExtent]
+CONTRACTS = [MaskByExtent, BoxIntersect, PointsMaskByExtent, CellMaskByExtent, DataMaskByExtent, GridMaskByExtent, Grid2DCopyFromExtent, ContainerCopyFromExtent, BoxIntersectOpaque, GroupCopyFromExtent]
 
 
 class DataCopyMasked(Contract):
